@@ -29,9 +29,13 @@ structure Consts where
   receiptPrefix : Bytes
   processedTimeSuffix : Bytes
   iterateConsensusStatePrefix : Bytes
+  recentSignersPrefix : Bytes
+  pendingValidatorsPrefix : Bytes
+  ethHeaderIndexPrefix : Bytes
+  ethRootMainPrefix : Bytes
 
 inductive PTy where
-  | str | u64 | height
+  | str | u64 | height | hash
   deriving DecidableEq, Repr
 
 inductive Seg where
@@ -40,7 +44,10 @@ inductive Seg where
   | dec (i : Nat)
   | revBE (i : Nat)
   | heightBE (i : Nat)
-  | heightStr (i : Nat)
+  | heightStr (i : Nat)     -- a Height printed with %s (= Height.String)
+  | hashHex (i : Nat)       -- a common.Hash printed with %s: "0x" ++ 64 lower-case hex digits
+  | decRev (i : Nat)        -- the revision number of a Height printed with %d
+  | decHeight (i : Nat)     -- the revision height of a Height printed with %d
   deriving DecidableEq, Repr
 
 structure Template where
@@ -52,12 +59,14 @@ inductive Arg where
   | s (b : Bytes)
   | n (v : UInt64)
   | h (rev height : UInt64)
+  | hash (b : Bytes)
   deriving DecidableEq, Repr
 
 def Arg.ty : Arg → PTy
   | .s _ => .str
   | .n _ => .u64
   | .h _ _ => .height
+  | .hash _ => .hash
 
 def slash : UInt8 := 47
 
@@ -101,6 +110,13 @@ def be8 (n : UInt64) : Bytes := toBE 8 n.toNat
 
 /-! ### templates -/
 
+def hexDigitB (n : Nat) : UInt8 := if n < 10 then UInt8.ofNat (48 + n) else UInt8.ofNat (87 + n)
+
+/-- lower-case hex text of a byte string -/
+def hexBytes : Bytes → Bytes
+  | [] => []
+  | b :: r => hexDigitB (b.toNat / 16) :: hexDigitB (b.toNat % 16) :: hexBytes r
+
 def renderSeg (args : List Arg) : Seg → Option Bytes
   | .lit b => some b
   | .str i => match args[i]? with | some (.s b) => some b | _ => none
@@ -108,6 +124,9 @@ def renderSeg (args : List Arg) : Seg → Option Bytes
   | .revBE i => match args[i]? with | some (.h r _) => some (be8 r) | _ => none
   | .heightBE i => match args[i]? with | some (.h _ h) => some (be8 h) | _ => none
   | .heightStr i => match args[i]? with | some (.h r h) => some (toDec r ++ [45] ++ toDec h) | _ => none
+  | .hashHex i => match args[i]? with | some (.hash b) => some ([48, 120] ++ hexBytes b) | _ => none
+  | .decRev i => match args[i]? with | some (.h r _) => some (toDec r) | _ => none
+  | .decHeight i => match args[i]? with | some (.h _ h) => some (toDec h) | _ => none
 
 def renderSegs (args : List Arg) : List Seg → Option Bytes
   | [] => some []
@@ -359,5 +378,122 @@ structure Delegate where
 def storeGet {α} (k : Bytes) : List (Bytes × α) → Option α
   | [] => none
   | (k', v) :: r => if k = k' then some v else storeGet k r
+
+/-! ### parsers that read a key / a text form back (records regenerated from the source by tools/gofacts) -/
+
+inductive BEDecoder where
+  | binaryBE     -- binary.BigEndian.Uint64: panics below 8 bytes, reads the first 8
+  | sdkBE        -- sdk.BigEndianToUint64: 0 for the empty slice, otherwise as above
+  deriving DecidableEq, Repr
+
+/-- `GetHeightFromIterationKey`: b := key[len(skip):]; revision := dec(b[revLo:revHi]); height := dec(b[heightLo:]) -/
+structure IterKeyParser where
+  skip : Bytes
+  revLo : Nat
+  revHi : Nat
+  heightLo : Nat
+  decoder : BEDecoder
+  deriving DecidableEq, Repr
+
+/-- `ParseHeight`: strings.Split(s, sep); exactly `parts` parts; ParseUint(part revIdx), ParseUint(part heightIdx) -/
+structure HeightParser where
+  sep : UInt8
+  parts : Nat
+  revIdx : Nat
+  heightIdx : Nat
+  base : Nat
+  bits : Nat
+  deriving DecidableEq, Repr
+
+/-- `iterateHashes`: ks := strings.Split(key, sep); src := ks[srcIdx]; dst := ks[dstIdx]; ParseUint(ks[len-seqFromEnd]) -/
+structure HashKeyParser where
+  sep : UInt8
+  srcIdx : Nat
+  dstIdx : Nat
+  seqFromEnd : Nat
+  base : Nat
+  bits : Nat
+  deriving DecidableEq, Repr
+
+/-- `host.ParsePath` -/
+structure PathParser where
+  sep : UInt8
+  minParts : Nat
+  srcIdx : Nat
+  dstIdx : Nat
+  deriving DecidableEq, Repr
+
+/-- bsc `GetRecentSigners` / `DeleteAllSigner`: ParseHeight(strings.Split(key, sep)[heightIdx]) -/
+structure SignerKeyParser where
+  fn : String
+  sep : UInt8
+  heightIdx : Nat
+
+def decodeBE : BEDecoder → Bytes → Outcome UInt64
+  | .binaryBE, b => if b.length < 8 then .panic "BigEndian.Uint64: short slice" else .ok (UInt64.ofNat (ofBE (b.take 8)))
+  | .sdkBE, b => bigEndianToUint64 b
+
+/-- interpreter of an `IterKeyParser` (slice expressions panic when out of range) -/
+def heightFromIterKey (p : IterKeyParser) (key : Bytes) : Outcome (UInt64 × UInt64) :=
+  if key.length < p.skip.length then .panic "slice bounds out of range" else
+  let b := key.drop p.skip.length
+  if p.revHi < p.revLo || b.length < p.revHi || b.length < p.heightLo then .panic "slice bounds out of range" else
+  match decodeBE p.decoder ((b.drop p.revLo).take (p.revHi - p.revLo)) with
+  | .ok r =>
+    match decodeBE p.decoder (b.drop p.heightLo) with
+    | .ok h => .ok (r, h)
+    | .err e => .err e
+    | .panic s => .panic s
+  | .err e => .err e
+  | .panic s => .panic s
+
+/-- strconv.ParseUint(s, base, bits) for the only parameters the model knows (10, 64) -/
+def parseUintP (base bits : Nat) (s : Bytes) : Option UInt64 :=
+  if base = 10 ∧ bits = 64 then parseUint s else none
+
+/-- interpreter of a `HeightParser` -/
+def parseHeightP (p : HeightParser) (s : Bytes) : Option (UInt64 × UInt64) :=
+  let ks := splitOn p.sep s
+  if ks.length ≠ p.parts then none else
+  match ks[p.revIdx]?, ks[p.heightIdx]? with
+  | some a, some b =>
+    match parseUintP p.base p.bits a with
+    | none => none
+    | some r =>
+      match parseUintP p.base p.bits b with
+      | none => none
+      | some h => some (r, h)
+  | _, _ => none
+
+/-- interpreter of a `HashKeyParser` (index expressions and a failing ParseUint panic) -/
+def parseHashesKeyP (p : HashKeyParser) (key : Bytes) : Outcome (Bytes × Bytes × UInt64) :=
+  let ks := splitOn p.sep key
+  match ks[p.srcIdx]?, ks[p.dstIdx]? with
+  | some a, some b =>
+    if ks.length < p.seqFromEnd then .panic "iterateHashes: index out of range" else
+    match parseUintP p.base p.bits (ks.getD (ks.length - p.seqFromEnd) []) with
+    | some n => .ok (a, b, n)
+    | none => .panic "iterateHashes: ParseUint"
+  | _, _ => .panic "iterateHashes: index out of range"
+
+/-- interpreter of a `PathParser` -/
+def parsePathP (p : PathParser) (path : Bytes) : Outcome (Bytes × Bytes) :=
+  let ks := splitOn p.sep path
+  if ks.length < p.minParts then .err "cannot parse path" else
+  match ks[p.srcIdx]?, ks[p.dstIdx]? with
+  | some a, some b => .ok (a, b)
+  | _, _ => .panic "index out of range"
+
+/-- height read from a bsc recent-signer key: index expression panics, ParseHeight failure is an error -/
+def parseSignerKey (p : SignerKeyParser) (hp : HeightParser) (key : Bytes) : Outcome (UInt64 × UInt64) :=
+  match (splitOn p.sep key)[p.heightIdx]? with
+  | none => .panic "index out of range"
+  | some t =>
+    match parseHeightP hp t with
+    | some h => .ok h
+    | none => .err "ParseHeight"
+
+/-- KVStore.Delete on the key-sorted store -/
+def storeDel {α} (k : Bytes) (st : List (Bytes × α)) : List (Bytes × α) := st.filter (fun kv => kv.1 ≠ k)
 
 end TM.Host
